@@ -25,3 +25,5 @@ pub mod bnspec;
 pub use bnspec::*;
 pub mod factoring;
 pub use factoring::*;
+pub mod sieve;
+pub use sieve::*;
